@@ -24,6 +24,8 @@ def gen_cfg(r, i):
     cfg, mode = c18.gen_cfg(r, i)
     cfg["n_samples"] = int(r.choice([8, 12]))
     cfg["kernel_steps"] = int(r.choice([2, 3]))
+    if i % 3 == 1:
+        cfg["fault_kind"] = "interrupt"        # the interruption arrives as a KeyboardInterrupt instead of an Exception
     if i % 5 == 4:
         cfg["precond"] = {"bounded_to_unbounded": True, "bounded_transform": "logit", "affine_transform": bool(i % 2)}
     return cfg, mode
